@@ -26,7 +26,7 @@ import json,sys
 src,dst,pid,suite,c,m=sys.argv[1:]
 try: meta=json.load(open(src))
 except Exception as e: meta={"what":"(meta unreadable: %s)"%e}
-meta["property"]=pid
+meta["property"]=pid.rstrip("abcdefgh")
 meta["confirmed_by_main"]={"suite_with_change":suite,"demo_rc_clean":int(c),"demo_rc_with_change":int(m),"base_commit":__import__("subprocess").run(["git","-C","/repo","rev-parse","--short","HEAD"],capture_output=True,text=True).stdout.strip()}
 json.dump(meta,open(dst,"w"),indent=1)
 PY
